@@ -172,8 +172,16 @@ def pipeline(ctx, case, sh, name, method, kmax, res, warns, err, info):
     warned = t.bool(); unmodelled = t.bool()
     val = semgen.parse_val(t, (lambda: t.next() == 'T') if name == 'bool' else None)
     if unmodelled:
-        ctx.count(f'pipeline.{name}.{method}.newton-proper-not-modelled')
-        return
+        # some component needs Newton's iteration proper: the model `Nw.sumProductsN` (Newton step with the two maximum clamps, the
+        # linear system J(x)·d + (F0 - x) solved by the elimination loop, budget and warning of the for/else loop)
+        rep = ctx.driver.ask(f'P.sumProductsN {name} {gen.enc_shape(sh)} {method} {kmax}')
+        t = Toks(rep)
+        if t.next() == 'raise':
+            ctx.disagree('Nw.sumProductsN raises, sum_products does not', dict(case, config=cfg), repr(err) if err else 'returned', rep[:100])
+            return
+        warned = t.bool(); t.bool()
+        val = semgen.parse_val(t, (lambda: t.next() == 'T') if name == 'bool' else None)
+        ctx.count(f'pipeline.{name}.{method}.newton-proper.' + ('warn' if warned else 'ok'))
     if err is not None:
         ctx.disagree(f'sum_products raised {type(err).__name__}, Pipe.sumProducts returns a value', dict(case, config=cfg), repr(err), rep[:200])
         return
